@@ -859,6 +859,9 @@ def run_task(spec):
         elif spec['kind'] in ('sread', 'swrite'):
             from parts import cc_reuse
             r = cc_reuse.run_task(spec)
+        elif spec['kind'] in ('tstream', 'tcontainer', 'ehself'):
+            from parts import cc_trunc
+            r = cc_trunc.run_task(spec)
         else:
             raise ValueError(spec['kind'])
         xs, xp = xcheck_run(r['tag'])
